@@ -364,7 +364,7 @@ def main_tail_jobs(Job, cfg=CFG_NDEBUG, tier="quick"):
 
 
 def c11_jobs(Job, tier):            # noqa: F811
-    return write_span_jobs(Job) + listtype_jobs(Job)[1:2] + main_tail_jobs(Job)
+    return write_span_jobs(Job) + listtype_jobs(Job)[1:2] + main_tail_jobs(Job) + extractwrite_jobs(Job)
 
 
 # ---- gzip reader (C10 ii) ----------------------------------------------------------------------------------------------
@@ -568,3 +568,9 @@ def fragment_jobs(Job, cfg=CFG_NDEBUG, tier="quick"):
         return Job("D_%s_%s" % (name, cfg[0]), "harness/dfs_fragment.c", entry, enforce=enforce, defines=list(cfg[1]), extract=ext(FRAG_GROUP), tier=tier, **kw)
     return [J("convert_title", "h_title", ["convert_title"], cbmc=["--unwindset", "convert_title_wrapped_for_contract_checking.0:9,convert_title_wrapped_for_contract_checking.1:5,convert_title.0:9,convert_title.1:5,cstr_rtrim.0:17", "--unwinding-assertions"]),
             J("catalog_fragment_ctor", "h_fragment", ["CatalogFragment_ctor"], replace=["sector_count"])]
+
+
+def extractwrite_jobs(Job, cfg=CFG_NDEBUG, tier="quick"):
+    g = ["extract_files_visitor", "extract_files_write_body"]
+    return [Job("D_extract_files_visitor_%s" % cfg[0], "harness/dfs_extractwrite.c", "h_visitor", enforce=["extract_files_visitor"], defines=list(cfg[1]), extract=ext(g), tier=tier),
+            Job("D_extract_files_write_body_%s" % cfg[0], "harness/dfs_extractwrite.c", "h_write_body", enforce=["extract_files_write_body"], defines=list(cfg[1]), extract=ext(g), tier=tier, cover=True)]
